@@ -389,7 +389,7 @@ func getDiagForRetSig(receiver *metadata.ReceiverMeta) (int, *diagnostics.Resolv
 				receiver.Annotations.FileName(),
 				"Expected method to return an error or a value and error tuple but found void",
 				diagnostics.DiagReceiverRetValsInvalidSignature,
-				receiver.RetValsRange(),
+				receiver.Range, // There are no return values to point at - point at the method itself
 			),
 		)
 	default:
